@@ -286,6 +286,28 @@ def matmulDenseDia [DecidableEq R] [OfNat R 1] (a : Dense R) (Rm : Dia R) (s : R
     if s = 1 then t else { t with data := fun p => if p < a.rows * Rm.cols then s * t.data p else t.data p }
 end denseDia
 
+/-! ### `add_dia` -/
+section diaAdd
+variable {R : Type} [Add R] [Mul R] [OfNat R 0]
+
+/-- the merge loop of `add_dia` over the stored diagonals of both operands (as the kernel does it: equal offsets are
+added, otherwise the smaller offset goes first; the rest of the longer operand is appended).  `fuel` bounds the number
+of iterations (length of both lists). -/
+def addDiaMerge (s : R) : Nat → List (Int × (Nat → R)) → List (Int × (Nat → R)) → List (Int × (Nat → R))
+  | 0, _, _ => []
+  | _ + 1, [], r => r.map fun d => (d.1, fun c => s * d.2 c)
+  | _ + 1, l, [] => l
+  | fuel + 1, dl :: l, dr :: r =>
+    if dl.1 = dr.1 then (dl.1, fun c => dl.2 c + s * dr.2 c) :: addDiaMerge s fuel l r
+    else if dl.1 ≤ dr.1 then dl :: addDiaMerge s fuel l (dr :: r)
+    else (dr.1, fun c => s * dr.2 c) :: addDiaMerge s fuel (dl :: l) r
+
+/-- `add_dia(left, right, scale)` for operands whose stored offsets are increasing (what every constructor of the
+library and `clean_dia` produce; for other operands the kernel sorts the result afterwards) -/
+def addDia (L Rm : Dia R) (s : R) : Dia R :=
+  { rows := L.rows, cols := L.cols, diags := addDiaMerge s (L.diags.length + Rm.diags.length) L.diags Rm.diags }
+end diaAdd
+
 /-! ### the dispatcher: a specialisation built from a registered one and conversions -/
 
 /-- converters between formats preserve the matrix; `Repr f` is the carrier of format `f` -/
